@@ -204,7 +204,7 @@ PROPERTIES = {
         'technique': 'timer-handle typestate dataflow with callee summaries and requirement propagation; decision-table extraction by partial evaluation of the handlers over input classes; must-facts at transmission sites',
     },
     'C11': {
-        'rules': ['RF3', 'HB', 'RF5', 'NMT', 'OBJWR'],
+        'rules': ['RF3', 'HB', 'RF5', 'NMT', 'OBJWR', 'RESET'],
         'explanation': 'RF3 for CO_HBCONS.Tmr (re-arm deletes first, deactivation deletes, no armed handle overwritten, the one-shot monitor redefines its handle); activation table (duplicate node refused, unlink by identity, event counter and last state reset together with the configuration, accepted path stores exactly the configuration); monitor timeout (event counter +1, callback with the node id, one-shot re-arm with the consumer time, last state untouched); frame check (delete-then-create re-arm, change callback iff the state differs, foreign identifiers ignored); last-state ownership (who may write CO_HBCONS.State); state-byte decode table for all defined bytes and a sample of undefined ones; RF5 on the consumer chain.',
         'not_decided': 'timeout timing; interleaving of monitor expiry with reception',
         'technique': 'timer-handle typestate dataflow with callee summaries and requirement propagation; decision-table extraction by partial evaluation of the handlers over input classes; must-facts at transmission sites',
